@@ -777,4 +777,38 @@ example :
     dictGet (componentWrites [10, 20] 2 r.1) 10 = some 10 ∧ dictGet (componentWrites [10, 20] 2 r.1) 20 = some 20 := by
   decide
 
+/- FULL statement asked for (round 10): for `solveInstance H fuel k gl` (the functional stage order of
+   `solve_polyphase_instance` / `phase_single_block` in `Model/C15Deep.lean`, every heuristic a field of `H`), for
+   every `H` whose `thread` returns `len(gl)` rows/columns of `k` entries and whose `labels` has one label per column,
+   every column `i` of the result has an undetermined allele or is a rearrangement of `gl[i]`.  Proved below: the
+   statement per column for one level of the recursion, with the sub-instance write-backs given by the relation
+   `SubSteps` (whose side conditions are now theorems: `subinstances_disjoint_and_inside_block`,
+   `integrate_preserves_genotype_multiset`).  Missing: the induction over `fuel` through the matrix-level functions
+   (`List.zipWith forceCol`, `integrateHaps` column by column = `SubSteps`, the block slices), i.e. that column `p` of
+   `phaseBlock` is `permuteCol (sanPerm …) (column p of integrateHaps …)`. -/
+
+/-- **Stage order with arbitrary heuristics, one column.**  Threading (`col0`: any column of `ploidy` alleles) →
+`force_genotypes` with ANY likelihood `pick` → write-backs of recursively solved sub-instances → `permute_blocks` with
+ANY assignment `perm` (`sanPerm`: an assignment is one-to-one): the result is a column `solve_polyphase_instance` can
+return (`SolvedN`), so it has an undetermined allele or lists exactly the genotype — no property of `pick`, `perm`,
+`col0` is used. -/
+theorem pipeline_obeys_genotypes_for_any_heuristic_partial
+    (pick : List Allele → List Allele → List Nat → List Allele → List Allele) (perm : List Nat)
+    (col0 gv : List Allele) (hlen : col0.length = gv.length) (n : Nat) (col2 : List Allele)
+    (hsub : SubSteps (SolvedN n) (forceCol pick col0 gv) [] (forceCol pick col0 gv) col2) :
+    SolvedN (n + 1) gv (permuteCol (sanPerm gv.length perm) col2) ∧
+    ((-1 : Allele) ∉ permuteCol (sanPerm gv.length perm) col2 →
+      (permuteCol (sanPerm gv.length perm) col2).Perm gv) := by
+  have hs : SolvedN (n + 1) gv (permuteCol (sanPerm gv.length perm) col2) := by
+    simp only [SolvedN]
+    exact Or.inr ⟨col0, forceCol pick col0 gv, col2, sanPerm gv.length perm, hlen, forceCol_forceOut pick col0 gv, hsub,
+      sanPerm_perm _ _, rfl⟩
+  exact ⟨hs, fun hdet => solved_column_obeys_genotype (n + 1) gv _ hs hdet⟩
+
+/-- non-vacuity: a likelihood that answers nonsense, an assignment that is none -/
+example : forceCol (fun _ _ _ _ => [7, 7, 7]) [0, 0, 0, 2] [0, 1, 1, 2] = [0, 1, 1, 2] ∧ sanPerm 3 [0, 0, 1] = [0, 1, 2] ∧
+    forceCol (fun _ _ _ ins => ins.reverse) [0, 0, 0, 2] [0, 1, 1, 2] = [1, 1, 0, 2] := by
+  refine ⟨?_, by decide, ?_⟩ <;> simp [forceCol, forceStep, affected, idxFrom, abundant, toInsert, alleles, dedup, insertFor,
+    List.mergeSort, assign, List.isPerm]
+
 end WhVerif.Props.C15
